@@ -204,31 +204,21 @@ fn placeholder_ring() -> super::SimRing {
 }
 
 impl Sim {
-    /// Release the operation-state holds of requests whose final CQE has been
-    /// consumed by user space (the CQ head moved past it).
-    pub fn release_consumed_states(&mut self, idx: usize) {
-        let ring = &mut self.rings[idx];
-        let head = ring.cq_head();
-        let tail = ring.cq_tail();
-        let ready = tail.wrapping_sub(head);
-        for p in &ring.posted {
-            if p.req == 0 || p.cqe.flags & abi::CQE_F_MORE != 0 {
-                continue;
-            }
-            if let Some(pos) = p.position {
-                // Consumed iff not in [head, tail).
-                let off = pos.wrapping_sub(head);
-                if off >= ready {
-                    track::release(p.req | STATE_HOLD);
-                }
-            }
-        }
-    }
+    /// (State holds are released when the final CQE becomes visible in the
+    /// ring, see `SimRing::post_raw`.)
+    pub fn release_consumed_states(&mut self, _idx: usize) {}
 
     /// Consume up to `max` SQEs and run the built-in request handlers.
     pub fn consume_and_dispatch(&mut self, idx: usize, max: u32) -> Vec<u64> {
-        let serials = self.rings[idx].consume(max);
-        for serial in &serials {
+        // Requests are issued one at a time, in order (a cancel request only
+        // sees what was issued before it).
+        let mut serials = Vec::new();
+        let mut left = max;
+        while left > 0 {
+            let one = self.rings[idx].consume(1, false);
+            let Some(serial) = one.first() else { break };
+            left -= 1;
+            serials.push(*serial);
             let sqe = self.rings[idx].req(*serial).unwrap().sqe;
             if sqe.user_data >= 4 {
                 let addr = (sqe.user_data & !1) as usize;
@@ -241,6 +231,9 @@ impl Sim {
                 }
             }
             self.dispatch_builtin(idx, *serial);
+        }
+        if !serials.is_empty() {
+            self.rings[idx].publish_sq_head();
         }
         serials
     }
